@@ -67,9 +67,12 @@ CHECKS = {
              "ends in an implementation or NotSupportedError, never in an internal error) and core_ops_supported, over Gen/ImplCoverage dumped from "
              "the live ImplStore objects. The model is run against TableImpl.get_impl for every backend x operator (x argument tuples where typed "
              "implementations exist). Clause (a) is partial: build_query is executed twice per generated program on SQLite, PostgreSQL and SQL Server "
-             "dialect objects (stub DBAPI modules) and checked for equal text, a single SELECT and allowed exceptions; SQLAlchemy's renderer is not modelled.",
+             "dialect objects (stub DBAPI modules) and checked for equal text, a single SELECT and allowed exceptions; a directed grid (harness/c19grid.py: "
+             "every literal class x explicit dtype incl. typed nulls, every operator signature with a const parameter with plain and computed constants, "
+             "window / aggregate operators with empty or duplicated context lists, unordered slices below subqueries) is built on the same dialects; "
+             "SQLAlchemy's renderer is not modelled.",
         design_ref="DESIGN.md section 5, C19",
-        note=NOTE_COMMON + "DuckDB / DB2 classes only when importable. Known findings D44, D49, D53 are matched by trigger predicates.",
+        note=NOTE_COMMON + "DuckDB / DB2 classes only when importable. Known findings D44, D49, D53 are matched by trigger predicates, D69, D70, D72 by grid case and exception class.",
     ),
     "C18": dict(
         technique="Lean 4 proof: round-trip and non-interference theorems for a model of SQL string-literal rendering/lexing and of LIKE with "
